@@ -33,7 +33,9 @@ LF == [ NM |-> [ent |-> "0", type |-> "NodeManagement",       role |-> "special"
         S1 |-> [ent |-> "1", type |-> "LoadControl",          role |-> "server"],
         K1 |-> [ent |-> "1", type |-> "LoadControl",          role |-> "client"],
         S2 |-> [ent |-> "2", type |-> "LoadControl",          role |-> "server"],
-        S3 |-> [ent |-> "2", type |-> "DeviceConfiguration",  role |-> "server"] ]
+        S3 |-> [ent |-> "2", type |-> "DeviceConfiguration",  role |-> "server"],
+        \* a feature of the nested entity [1,1] that has the same feature number as S1 of its parent [1]
+        S4 |-> [ent |-> "1.1", type |-> "LoadControl",        role |-> "server"] ]
 LocalNames == DOMAIN LF
 LocalUnknown == {"X19", "X91"}      \* unknown feature in known entity / unknown entity
 
@@ -41,6 +43,7 @@ LocalUnknown == {"X19", "X91"}      \* unknown feature in known entity / unknown
 LFn == [ S1 |-> [limit |-> [r |-> TRUE, w |-> TRUE], ldesc |-> [r |-> TRUE, w |-> FALSE]],
          S2 |-> [limit |-> [r |-> TRUE, w |-> FALSE]],
          S3 |-> [kv    |-> [r |-> TRUE, w |-> TRUE], kvdesc |-> [r |-> TRUE, w |-> FALSE]],
+         S4 |-> [limit |-> [r |-> TRUE, w |-> TRUE]],
          DC |-> [mfr   |-> [r |-> TRUE, w |-> FALSE]],
          K1 |-> << >>,
          NM |-> << >> ]          \* node management functions are handled by payload kind, not here
@@ -50,9 +53,9 @@ TypeFns == [ LoadControl |-> {"limit", "ldesc"}, DeviceConfiguration |-> {"kv", 
 DataFns == {"limit", "ldesc", "kv", "kvdesc", "mfr"}
 \* data cells that the configs vary
 Cell(s, fn) == s \o "." \o fn
-Cells == {"S1.limit", "S2.limit", "S3.kv"}
-CellS == [c \in Cells |-> CASE c = "S1.limit" -> "S1" [] c = "S2.limit" -> "S2" [] c = "S3.kv" -> "S3"]
-CellFn == [c \in Cells |-> CASE c = "S1.limit" -> "limit" [] c = "S2.limit" -> "limit" [] c = "S3.kv" -> "kv"]
+Cells == {"S1.limit", "S2.limit", "S3.kv", "S4.limit"}
+CellS == [c \in Cells |-> CASE c = "S1.limit" -> "S1" [] c = "S2.limit" -> "S2" [] c = "S3.kv" -> "S3" [] c = "S4.limit" -> "S4"]
+CellFn == [c \in Cells |-> CASE c = "S1.limit" -> "limit" [] c = "S2.limit" -> "limit" [] c = "S3.kv" -> "kv" [] c = "S4.limit" -> "limit"]
 
 RF == [ nm  |-> [ent |-> "0", type |-> "NodeManagement",      role |-> "special"],
         c11 |-> [ent |-> "1", type |-> "LoadControl",         role |-> "client"],
@@ -78,6 +81,7 @@ InitSt == [ conn  |-> {},                          \* peers with a connection (S
             csub  |-> {},                           \* [k, p, r]  client-side subscription bookkeeping
             cbind |-> {},                           \* [k, p, r]  client-side binding bookkeeping
             data  |-> [c \in Cells |-> 0],          \* abstract data version per cell (0 = initial)
+            rdata |-> [p \in Peers |-> 0],          \* cached data of the peer's server feature s14 (function limit)
             \* ghosts: number of registry insertions so far (capped).  No outcome depends on them; they only keep
             \* states with a different insertion history apart, so that the transition cover also reaches the
             \* hidden state of the code (id counters, slice capacity) behind one abstract registry value
@@ -133,6 +137,7 @@ DiscoverOut(st, a) ==
         new == ann \ st.known[p]
     IN  IF p \notin st.conn THEN { Outcome(st, NoOut, {}, "ok", Ideal) }
         ELSE { Outcome([st EXCEPT !.known[p] = @ \cup ann, !.addr = @ \cup {p},
+                                   !.rdata[p] = IF "1" \in ann THEN 0 ELSE @,     \* (re)announced entities get fresh features
                                    !.csub = @ \cup {[k |-> "NM", p |-> p, r |-> "nm"]}],
                        OutTo(p, Ack(a, "NM", "nm")),
                        {Ev("dev", "add", p, "", "", "")} \cup {Ev("ent", "add", p, e, "", "") : e \in new},
@@ -147,7 +152,7 @@ DisconnectOut(st, a) ==
     LET p == a.p IN
     IF p \notin st.conn
     THEN { Outcome(st, NoOut, {Ev("dev", "remove", p, "", "", "")}, "ok", Ideal) }
-    ELSE { Outcome([st EXCEPT !.conn = @ \ {p}, !.addr = @ \ {p}, !.known[p] = {},
+    ELSE { Outcome([st EXCEPT !.conn = @ \ {p}, !.addr = @ \ {p}, !.known[p] = {}, !.rdata[p] = 0,
                                !.subs = @ \ OfPeer(st.subs, p), !.binds = @ \ OfPeer(st.binds, p),
                                !.csub = @ \ OfPeer(st.csub, p), !.cbind = @ \ OfPeer(st.cbind, p)],
                    NoOut,
@@ -161,7 +166,7 @@ EntRemOut(st, a) ==
     IF ~Discovered(st, p) THEN { Outcome(st, NoOut, {}, "ok", Ideal) }
     ELSE IF e \notin st.known[p]
     THEN { Outcome(st, OutTo(p, Ack(a, "NM", "nm")), {}, "ok", Ideal) }
-    ELSE { Outcome([st EXCEPT !.known[p] = @ \ {e},
+    ELSE { Outcome([st EXCEPT !.known[p] = @ \ {e}, !.rdata[p] = IF e = "1" THEN 0 ELSE @,
                                !.subs = @ \ OfPeerEnt(st.subs, p, e), !.binds = @ \ OfPeerEnt(st.binds, p, e),
                                !.csub = @ \ COfPeerEnt(st.csub, p, e), !.cbind = @ \ COfPeerEnt(st.cbind, p, e)],
                    OutTo(p, Ack(a, "NM", "nm")),
@@ -173,7 +178,7 @@ EntRemOut(st, a) ==
 EntAddOut(st, a) ==
     LET p == a.p  e == a.e IN
     IF ~Discovered(st, p) THEN { Outcome(st, NoOut, {}, "ok", Ideal) }
-    ELSE { Outcome([st EXCEPT !.known[p] = @ \cup {e}],
+    ELSE { Outcome([st EXCEPT !.known[p] = @ \cup {e}, !.rdata[p] = IF e = "1" THEN 0 ELSE @],
                    OutTo(p, Ack(a, "NM", "nm")),
                    IF e \in st.known[p] THEN {} ELSE {Ev("ent", "add", p, e, "", "")},
                    "ok", Ideal) }
@@ -264,13 +269,60 @@ WriteOut(st, a) ==
 SetDataOut(st, a) ==
     { Outcome([st EXCEPT !.data[Cell(a.s, a.fn)] = a.v], Fanout(st, a.s, a.fn, a.v), {}, "ok", Ideal) }
 
-\* a = [a |-> "read", p, c, s, fn, ack]  (ack on a read is not acknowledged: only call/reply/notify are)
-ReadOut(st, a) ==
-    IF ~RKnown(st, a.p, a.c) THEN { Outcome(st, NoOut, {}, "ok", Ideal) }
-    ELSE IF a.s \in LocalNames /\ LF[a.s].role # "client" /\ a.fn \in TypeFns[LF[a.s].type]
-    THEN { Outcome(st, OutTo(a.p, {Reply(a.s, a.c, a.fn,
-                      IF Cell(a.s, a.fn) \in Cells THEN st.data[Cell(a.s, a.fn)] ELSE 0)}), {}, "ok", Ideal) }
-    ELSE { Outcome(st, OutTo(a.p, {ResErr(a.s, a.c)}), {}, "ok", Ideal) }
+---------------------------------------------------------------------------
+(* Generic inbound datagram (the C01 response table).                      *)
+(* a = [a |-> "recv", p, cls, c, s, pl, v, ack]                             *)
+(*   (a reply and a result always carry a msgCounterReference - SPINE makes  *)
+(*   it mandatory; without it the datagram is a robustness input, C05)      *)
+(*   cls  classifier, c source feature, s destination (local name or        *)
+(*   unknown), pl payload: a data function, or "res0"/"res1" (result with   *)
+(*   error number 0 / 1), "resbad" (result data without error number),      *)
+(*   "usecase", "subdata", "binddata", "destlist", "discovery"              *)
+NMReadable == {"usecase", "destlist", "discovery"}     \* answered by a reply on read
+NMLists    == {"subdata", "binddata"}
+ResultPls  == {"res0", "res1", "resbad"}
+\* functions a reply / notify from remote feature c is cached under (function data exists for the feature type)
+RemoteTypeFns(c) == IF RF[c].type = "NodeManagement" THEN {"usecase", "destlist", "discovery"}
+                    ELSE IF RF[c].type \in DOMAIN TypeFns THEN TypeFns[RF[c].type] ELSE {}
+
+ListEnts(st, p, pl) == {[c |-> x.c, s |-> x.s] : x \in OfPeer(IF pl = "subdata" THEN st.subs ELSE st.binds, p)}
+
+RecvOut(st, a) ==
+    LET p == a.p  c == a.c  s == a.s
+        err == { Outcome(st, OutTo(p, {ResErr(s, c)}), {}, "ok", Ideal) }
+        nothing == { Outcome(st, NoOut, {}, "ok", Ideal) }
+    IN
+    IF ~RKnown(st, p, c) THEN nothing
+    ELSE IF a.cls = "result" THEN
+         \* never any result in answer to a result
+         nothing
+    ELSE IF s \notin LocalNames THEN err
+    ELSE IF a.cls = "read" THEN
+         IF s = "NM" THEN
+              IF a.pl \in NMReadable THEN { Outcome(st, OutTo(p, {Reply("NM", c, a.pl, -1)}), {}, "ok", Ideal) }
+              ELSE IF a.pl \in NMLists
+              THEN { Outcome(st, OutTo(p, {ReplyList("NM", c, a.pl, ListEnts(st, p, a.pl))}), {}, "ok", Ideal) }
+              ELSE err
+         ELSE IF LF[s].role # "client" /\ a.pl \in TypeFns[LF[s].type]
+         THEN { Outcome(st, OutTo(p, {Reply(s, c, a.pl, IF Cell(s, a.pl) \in Cells THEN st.data[Cell(s, a.pl)]
+                                                     ELSE IF a.pl \in {"limit", "kv"} THEN 0 ELSE -1)}), {}, "ok", Ideal) }
+         ELSE err
+    ELSE IF a.cls \in {"reply", "notify"} THEN
+         IF s = "NM" THEN
+              IF a.pl = "usecase" THEN { Outcome(st, OutTo(p, Ack(a, s, c)), {Ev("data", a.cls, p, "", c, "")}, "ok", Ideal) }
+              ELSE err
+         ELSE IF a.pl \in RemoteTypeFns(c)
+         THEN { Outcome([st EXCEPT !.rdata[p] = IF c = "s14" /\ a.pl = "limit" THEN a.v ELSE @],
+                        OutTo(p, Ack(a, s, c)), {Ev("data", a.cls, p, "", c, s)}, "ok", Ideal) }
+         ELSE err
+    ELSE IF a.cls = "call" THEN
+         IF s = "NM" /\ a.pl \in NMLists
+         THEN { Outcome(st, OutTo(p, {ReplyList("NM", c, a.pl, ListEnts(st, p, a.pl))} \cup Ack(a, s, c)), {}, "ok", Ideal) }
+         ELSE err
+    ELSE \* write: the gate of C03 (no local function is writable through these payloads unless bound)
+         IF a.pl \in DataFns
+         THEN WriteOut(st, [a |-> "write", p |-> p, c |-> c, s |-> s, fn |-> a.pl, v |-> a.v, ack |-> a.ack])
+         ELSE err
 
 ---------------------------------------------------------------------------
 (* Client side: a local client feature subscribes / binds to a remote      *)
@@ -311,7 +363,8 @@ Outcomes(st, a) ==
       [] a.a \in {"listsubs", "listbinds"} -> ListOut(st, a)
       [] a.a = "write"      -> WriteOut(st, a)
       [] a.a = "setdata"    -> SetDataOut(st, a)
-      [] a.a = "read"       -> ReadOut(st, a)
+      [] a.a = "read"       -> RecvOut(st, [a |-> "recv", p |-> a.p, cls |-> "read", c |-> a.c, s |-> a.s, pl |-> a.fn, v |-> 0, ack |-> a.ack])
+      [] a.a = "recv"       -> RecvOut(st, a)
       [] a.a = "lsub"       -> LSubOut(st, a)
       [] a.a = "lbind"      -> LBindOut(st, a)
       [] a.a = "lunsub"     -> LUnsubOut(st, a)
@@ -329,7 +382,7 @@ DevVar(k) == IF R(k) THEN {"own", "omit"} ELSE {"own"}
 \* client / server argument domains for registry calls
 CliArgs(k) == IF R(k) THEN {"c11", "c12", "c13", "s14", "c21", "x19", "x91"}
               ELSE IF k \in Tiny THEN {"c11", "c12"} ELSE {"c11", "c12", "c21"}
-SrvArgs(k) == IF R(k) THEN {"S1", "S2", "S3", "K1", "NM", "X19", "X91"}
+SrvArgs(k) == IF R(k) THEN {"S1", "S2", "S3", "S4", "K1", "NM", "X19", "X91"}
               ELSE IF k \in Tiny THEN {"S1", "S2"} ELSE {"S1", "S2", "S3"}
 \* requested type: the server feature's own type, or (rich) a wrong one
 FtArgs(k, s) == LET own == IF s \in LocalNames THEN LF[s].type ELSE "LoadControl"
@@ -350,7 +403,7 @@ DelCallsF(st, kind) ==
 WriteArgs(st) ==
     {[a |-> "write", p |-> p, c |-> c, s |-> s, fn |-> fn, v |-> v, ack |-> k, fel |-> fe, ofn |-> IF fn = "limit" THEN "ldesc" ELSE "limit"] :
         p \in DiscP(st), c \in (IF R("write") THEN {"c11", "c12", "c13", "c21", "x19"} ELSE {"c11", "c12"}),
-        s \in (IF R("write") THEN {"S1", "S2", "S3", "K1", "X19"} ELSE {"S1", "S2"}),
+        s \in (IF R("write") THEN {"S1", "S2", "S3", "S4", "K1", "X19"} ELSE {"S1", "S2"}),
         fn \in {"limit", "ldesc", "kv"}, v \in Vals, k \in Acks("write"),
         fe \in (IF R("write") THEN {"none", "same", "other"} ELSE {"none"})}
 WriteArgsF(st) == {x \in WriteArgs(st) :
@@ -375,8 +428,19 @@ Inputs(st) ==
     \cup On("setdata", {[a |-> "setdata", s |-> CellS[c], fn |-> CellFn[c], v |-> v] : c \in Cells, v \in Vals})
     \cup On("read",   {[a |-> "read", p |-> p, c |-> c, s |-> s, fn |-> fn, ack |-> k] :
                          p \in DiscP(st), c \in (IF R("read") THEN {"c11", "s14", "x19"} ELSE {"c11"}),
-                         s \in (IF R("read") THEN {"S1", "S2", "S3", "K1", "DC", "X19", "X91"} ELSE {"S1", "S2"}),
+                         s \in (IF R("read") THEN {"S1", "S2", "S3", "S4", "K1", "DC", "X19", "X91"} ELSE {"S1", "S2", "S4"}),
                          fn \in (IF R("read") THEN {"limit", "ldesc", "kv"} ELSE {"limit"}), k \in Acks("read")})
+    \* classifier and payload are consistent: a result carries result data, a request does not (the rest is C05);
+    \* discovery replies / notifications change the tree and are the inputs discover / entadd / entrem
+    \cup On("recv",   {x \in {[a |-> "recv", p |-> p, cls |-> cls, c |-> c, s |-> sd, pl |-> pl, v |-> 1, ack |-> k] :
+                         p \in DiscP(st), cls \in {"read", "reply", "notify", "write", "call", "result"},
+                         c \in (IF R("recv") THEN {"nm", "c11", "c13", "s14"} ELSE {"c11", "s14"}),
+                         sd \in (IF R("recv") THEN {"NM", "DC", "S1", "S3", "S4", "K1", "X19", "X91"} ELSE {"NM", "S1", "S4", "K1", "X19"}),
+                         pl \in (IF R("recv") THEN {"limit", "ldesc", "kv", "mfr", "res0", "res1", "usecase", "subdata", "binddata", "destlist", "discovery"}
+                                  ELSE {"limit", "kv", "res0", "res1", "usecase", "subdata"}),
+                         k \in BOOLEAN} :
+                       /\ (x.cls = "result") = (x.pl \in ResultPls)
+                       /\ ~(x.pl = "discovery" /\ x.cls \in {"reply", "notify"})})
     \cup On("lsub",   {[a |-> "lsub",   k |-> k, p |-> p, r |-> "s14"] : k \in (IF R("lsub") THEN {"K1", "S1"} ELSE {"K1"}), p \in (IF R("lsub") THEN Peers ELSE DiscP(st))})
     \cup On("lbind",  {[a |-> "lbind",  k |-> k, p |-> p, r |-> "s14"] : k \in (IF R("lbind") THEN {"K1", "S1"} ELSE {"K1"}), p \in (IF R("lbind") THEN Peers ELSE DiscP(st))})
     \cup On("lunsub", {[a |-> "lunsub", k |-> "K1", p |-> p, r |-> "s14"] : p \in (IF R("lunsub") THEN Peers ELSE DiscP(st))})
@@ -400,13 +464,24 @@ OutKinds(o, p, k) == {d \in o.out[p] : d.k = k}
 Responses(o, p)   == OutKinds(o, p, "result") \cup OutKinds(o, p, "reply")
 
 \* C01: at most one result per inbound datagram, addressed to its source, and only to the sender
-InboundKinds == {"discover", "entrem", "entadd", "sub", "unsub", "bind", "unbind", "listsubs", "listbinds", "write", "read"}
+InboundKinds == {"discover", "entrem", "entadd", "sub", "unsub", "bind", "unbind", "listsubs", "listbinds", "write", "read", "recv"}
 ResponseDiscipline(st, a, o) ==
     a.a \in InboundKinds =>
         /\ \A q \in Peers \ {a.p} : Responses(o, q) = {}
         /\ Cardinality(OutKinds(o, a.p, "result")) <= 1
         /\ Cardinality(OutKinds(o, a.p, "reply")) <= 1
         /\ \A d \in OutKinds(o, a.p, "result") : ~d.ok => OutKinds(o, a.p, "reply") = {}
+
+\* C01: never any result in answer to a result; a read is answered by a reply xor an error result
+NoResultForResult(st, a, o) ==
+    (a.a = "recv" /\ a.cls = "result") => \A q \in Peers : o.out[q] = {}
+ReadReplyXorError(st, a, o) ==
+    (a.a = "recv" /\ a.cls = "read" /\ RKnown(st, a.p, a.c)) =>
+        Cardinality(OutKinds(o, a.p, "reply")) + Cardinality(OutKinds(o, a.p, "result")) = 1
+\* C01: every response references the request, goes to its source and names the addressed feature
+ResponseAddressing(st, a, o) ==
+    a.a \in {"recv", "read", "write"} =>
+        \A d \in Responses(o, a.p) : d.ref = "req" /\ d.dst = a.c /\ d.src = a.s
 
 \* C03: a write changes data / notifies / publishes only through the gate
 WriteEffectOnlyIfGate(st, a, o) ==
@@ -456,6 +531,9 @@ RemovalEventsExact(st, a, o) ==
 
 StepProps(st, a, o) ==
     /\ ResponseDiscipline(st, a, o)
+    /\ NoResultForResult(st, a, o)
+    /\ ReadReplyXorError(st, a, o)
+    /\ ResponseAddressing(st, a, o)
     /\ WriteEffectOnlyIfGate(st, a, o)
     /\ WriteAppliedIfGate(st, a, o)
     /\ FanoutExact(st, a, o)
